@@ -183,6 +183,64 @@ fn c16_after_failing_sink<T: std::fmt::Display>(v: &T, plain: &str, what: &str, 
     Ok(())
 }
 
+/// Printing from unusual call sites: from the destructor of a thread-local while the thread exits (a
+/// per-thread move log flushing itself), and from inside the very writer an action is being printed
+/// into (a writer that annotates what it receives).
+fn c16_call_sites(actions: &[Action], st: &mut Stats) -> Check {
+    let want: Vec<String> = actions.iter().map(action_text).collect();
+    let (a1, a2) = (actions.to_vec(), actions.to_vec());
+    let r = in_tls_destructor(
+        move || {
+            for a in a1.iter() {
+                let _ = a.to_string();
+            }
+            let _ = Square::from_index(9).to_string();
+        },
+        move || guard(|| (a2.iter().map(|a| a.to_string()).collect::<Vec<_>>(), Square::from_index(9).to_string(), Piece::Horse.to_string(), Direction::Left.to_string())),
+    );
+    match r {
+        Some(Ok((texts, sq, pc, dr))) => {
+            st.eval();
+            for (t, w) in texts.iter().zip(want.iter()) {
+                ensure!(t == w, "C16:action_print", "printed from a thread-local destructor at thread exit, action {:?} prints as {:?}", w, t);
+            }
+            ensure!(sq == "b7" && pc == "h" && dr == "w", "C16:square_print", "printed from a thread-local destructor at thread exit: square b7 as {:?}, horse as {:?}, left as {:?}", sq, pc, dr);
+            st.bump("values_printed_from_a_thread_local_destructor");
+        }
+        Some(Err(p)) => return Err(Fail::new("C16:print_panic", format!("printing from a thread-local destructor at thread exit panicked: {}", p))),
+        None => st.bump("thread_local_destructor_probe_did_not_run"),
+    }
+    struct Annotating {
+        out: String,
+        other: Action,
+    }
+    impl std::fmt::Write for Annotating {
+        fn write_str(&mut self, x: &str) -> std::fmt::Result {
+            // the writer prints another action of its own while it receives one
+            let note = self.other.to_string();
+            self.out.push_str(x);
+            if note.is_empty() {
+                return Err(std::fmt::Error);
+            }
+            Ok(())
+        }
+    }
+    for (i, a) in actions.iter().enumerate() {
+        use std::fmt::Write as _;
+        st.eval();
+        let other = actions[(i * 7 + 3) % actions.len()];
+        let got = guard(|| {
+            let mut w = Annotating { out: String::new(), other };
+            let _ = write!(w, "{}", a);
+            w.out
+        })
+        .map_err(|p| Fail::new("C16:print_panic", format!("action {:?} printed into a writer that itself prints an action: {}", want[i], p)))?;
+        ensure!(got == want[i], "C16:action_print", "action {:?} printed into a writer that itself prints an action comes out as {:?}", want[i], got);
+    }
+    st.bump("values_printed_into_a_writer_that_prints");
+    Ok(())
+}
+
 /// C16 under formatter flags: the text printed with a width / alignment / sign / alternate flag is the
 /// plain text (possibly padded as a whole), or at least still parses back to the same value.
 fn c16_flagged<T: std::fmt::Display + PartialEq>(v: &T, plain: &str, what: &str, parse: impl Fn(&str) -> Option<T>, st: &mut Stats) -> Check {
@@ -229,6 +287,7 @@ pub fn c16_values(st: &mut Stats) -> Check {
         c16_after_failing_sink(a, &text, "action", st)?;
         st.nontrivial(fp_str(&text));
     }
+    c16_call_sites(&actions, st)?;
     for i in 0..64u8 {
         st.eval();
         let q = Square::from_index(i);
